@@ -49,6 +49,8 @@ pub const BLOCKING_END: u32 = 13;
 pub const POLL_QUEUE: u32 = 14;
 /// Polling driver: the operation was removed from descriptor b by a cancel.
 pub const POLL_CANCEL: u32 = 15;
+/// `Driver::drop` releases an operation whose completion was never reaped.
+pub const DROP_DRAIN: u32 = 16;
 /// `AwakeFlag::set`.
 pub const AWAKE_SET: u32 = 20;
 /// `AwakeFlag::reset` (b = prior value).
